@@ -21,10 +21,15 @@ func vHeaderString(h http.Header) string {
 // all three must agree, nothing that outlives the request may be written, and
 // what the handler saw the first time must not be visible to the second.
 func H_C19_route(tbl, router int) {
+	stage := 0
+	if router >= 10 { // thorough bounds
+		router -= 10
+		stage = 10
+	}
 	t := vTableFor(tbl)
 	h := vNewH(t)
 	c := h.build(vRouter(router))
-	q := vSymRequest(0, 12, 3, nil)
+	q := vSymRequest(stage, 12, 3, nil)
 	fp1 := verifFingerprint(c)
 	verifFrameBegin("dispatch", h)
 	o1 := h.run(c, q)
